@@ -440,8 +440,94 @@ class Finder(Part):
         return out
 
 
+class FindIdx(Part):
+    """Lookups by parameter value through a group whose models share buses (several models match one query)."""
+    name = 'findidx'
+    chunk = 1
+    timeout = 300.0
+    nproc = 8
+
+    GROUPS = ['StaticGen', 'StaticShunt', 'FreqMeasurement']
+
+    def describe(self, tier):
+        return (f'3-bus system in which two models of one group sit on the same bus (Slack+PV, Shunt+ShuntSw, BusFreq+BusROCOF): '
+                f'group.find_idx and model.find_idx by bus for ALL query tuples of length <= 3 over buses (1, 2, 3, missing) x '
+                f'allow_all x allow_none, groups {self.GROUPS}: one answer per query, each answer a device holding the value, '
+                f'allow_all = all such devices, a missing value raises unless allowed')
+
+    def cases(self, tier):
+        return [dict(group=g, allow_all=a, allow_none=n) for g in self.GROUPS for a in (False, True) for n in (False, True)]
+
+    def execute(self, case):
+        import andes
+        out = Outcome()
+        seen = set()
+
+        def bad(sig, msg):
+            if sig not in seen:
+                seen.add(sig)
+                out.bad(sig, msg)
+        ss = andes.System(no_output=True, default_config=True)
+        for b in (1, 2, 3):
+            ss.add('Bus', dict(idx=b, name=f'B{b}', Vn=110.0))
+        ss.add('Line', dict(idx='L1', bus1=1, bus2=2, x=0.1, Vn1=110.0, Vn2=110.0))
+        ss.add('Line', dict(idx='L2', bus1=2, bus2=3, x=0.1, Vn1=110.0, Vn2=110.0))
+        ss.add('Slack', dict(idx='S1', bus=1, Vn=110.0, v0=1.0))
+        ss.add('PV', dict(idx='G1', bus=1, Vn=110.0, p0=0.1, v0=1.0))
+        ss.add('PV', dict(idx='G2', bus=2, Vn=110.0, p0=0.1, v0=1.0))
+        ss.add('PV', dict(idx='G2b', bus=2, Vn=110.0, p0=0.1, v0=1.0))
+        ss.add('PQ', dict(idx='P3', bus=3, Vn=110.0, p0=0.3, q0=0.1))
+        ss.add('Shunt', dict(idx='H2', bus=2, Vn=110.0, b=0.02))
+        ss.add('ShuntSw', dict(idx='W2', bus=2, Vn=110.0, gs=[0.0], bs=[0.01], ns=[1]))
+        ss.add('Shunt', dict(idx='H3', bus=3, Vn=110.0, b=0.02))
+        ss.add('BusFreq', dict(idx='F1', bus=1))
+        ss.add('BusROCOF', dict(idx='R1', bus=1))
+        ss.add('BusFreq', dict(idx='F3', bus=3))
+        ss.setup()
+        grp = ss.groups[case['group']]
+        holders = {}
+        for mdl in grp.models.values():
+            for k in range(mdl.n):
+                holders.setdefault(mdl.bus.v[k], []).append(mdl.idx.v[k])
+        n = 0
+        for r in (1, 2, 3):
+            for q in itertools.product((1, 2, 3, 9), repeat=r):
+                n += 1
+                missing = [v for v in q if v not in holders]
+                try:
+                    got = grp.find_idx('bus', list(q), allow_none=case['allow_none'], allow_all=case['allow_all'])
+                except IndexError:
+                    if not missing or case['allow_none']:
+                        bad(f'find_idx_raises_on_present_value:{case["group"]}', f'{case}: query {q} raised IndexError')
+                    continue
+                except Exception as e:
+                    bad(f'find_idx_raises:{type(e).__name__}:{case["group"]}', f'{case}: query {q}: {type(e).__name__}: {e}')
+                    continue
+                if missing and not case['allow_none']:
+                    bad(f'missing_value_not_reported:{case["group"]}', f'{case}: query {q} returned {got}')
+                    continue
+                if len(got) != len(q):
+                    bad(f'answer_count_differs_from_query_count:{case["group"]}', f'{case}: query {q} -> {got}')
+                    continue
+                for v, g in zip(q, got):
+                    have = holders.get(v, [])
+                    if case['allow_all']:
+                        gl = list(g) if isinstance(g, (list, tuple)) else [g]
+                        want = sorted(map(str, have)) if have else ['None']
+                        if sorted(map(str, gl)) != want:
+                            bad(f'all_matches_wrong:{case["group"]}', f'{case}: bus {v}: {gl} vs devices on that bus {have}')
+                    else:
+                        if (g is None and have) or (g is not None and g not in have):
+                            bad(f'answer_does_not_hold_the_value:{case["group"]}', f'{case}: query {q} -> {got}: {g!r} is not a device on '
+                                                                                   f'bus {v} ({have})')
+        out.obs = dict(case=case, queries=n)
+        out.transitions = n
+        out.nontrivial = True
+        return out
+
+
 def parts(tier):
-    return [Registry(tier), BackRefs(), Dangling(), Finder()]
+    return [Registry(tier), BackRefs(), Dangling(), Finder(), FindIdx()]
 
 
 def run(run, only=None):
